@@ -15,7 +15,8 @@ from . import rules_const as RC
 TRUSTED_COMMON = [
     'rustc nightly: MIR construction, type checking and callee resolution (Instance::try_resolve)',
     'pkv-mirdump: faithful serialisation of MIR/ADT facts',
-    'mirtab: abstract semantics of the MIR constructs that occur + the callee-model table (Try::branch, FromResidual, Into, count_ones, panic entry points)',
+    'mirtab: abstract semantics of the MIR constructs that occur; the library\'s own monomorphised MIR is interpreted where available, the callee-model table (intrinsics, panic entry points, Try::branch/FromResidual/Into fallback) otherwise',
+    'pkv-shims: ten safe index-based stand-ins for raw-pointer based core::slice functions (only used if the crate calls them)',
 ]
 
 
